@@ -67,6 +67,48 @@ def scen(w, K=3, R=1, alphabet="moves"):
             return
 
 
+def scen_ind(w, alphabet="moves"):
+    """IND: ONE command from an arbitrary state that satisfies the invariant
+         Inv = tracked frame equals the file's frame, not excluding, nothing pending, no skipped recovery.
+    Obligations: the command is forwarded verbatim AND Inv holds again afterwards.  With the base case (Inv holds
+    after the G28 prologue, shown by the BSR scenarios) this extends transparency to programs of every length over
+    the shape alphabet."""
+    shapes = [s for s in ALPHABET[alphabet] if s is not pl.REPEAT and not (s.code == "G92" and any(
+        l in "XYZ" for l, _ in s.words))]
+    g90e = w.flag("g90e")
+    disabled = w.flag("disabled")
+    pipe = pl.Pipe(w, g90e, extended={"G4": "exclude", "M204": "merge", "M117": "last", "M73": "merge"},
+                   track_p=False)
+    nreg = w.choose(2, "nregions")
+    for i in range(nreg):
+        kind = "rect" if w.choose(2, "rkind%d" % i) == 0 else "disc"
+        pipe.add_region(pl.fresh_region(w, kind, "r%d" % i))
+    pipe.havoc_not_excluding(g90e)
+    if disabled:
+        pipe.state._exclusionEnabled = False
+        pipe.enabled = False
+    shape = shapes[w.choose(len(shapes), "shape")]
+    w.cover("shape-" + shape.tag)
+    text, _ = pl.render(w, shape, 0)
+    rec = pipe.begin(text)
+    if shape.code in ("G2", "G3") and not pipe.V.abs_xyz:
+        pl.skip(w, "arc in relative mode")
+    if rec.is_move and pipe.enabled and pipe.regions:
+        w.assume(alg.not_(rec.dest_inside))
+    rec = pipe.finish()
+    if rec.raised is not None:
+        w.fail("handler-raised", "%s raised %r" % (text, rec.raised))
+        return
+    ok = rec.result is None or (isinstance(rec.result, list) and len(rec.result) == 1 and rec.result[0] == text)
+    w.check(ok, "forwarded-verbatim", "inductive step %r -> %r" % (text, rec.result))
+    st = pipe.state
+    lr_ok = st.lastRetraction is None or st.lastRetraction.recoverExcluded is False
+    # (the E coordinate is not part of C02's invariant: transparency does not depend on it; E tracking is C04's subject)
+    inv = alg.and_(pipe.tracked_equals_file(include_e=False), st.excluding is False, len(st.pendingCommands) == 0, lr_ok,
+                   st.isExclusionEnabled() == (not disabled))
+    w.check(inv, "invariant-re-established", "inductive step %r" % (text,))
+
+
 SCENARIOS = {"bsr": scen}
 
 META = {
@@ -85,13 +127,20 @@ def plan(tier):
     K = 2 if tier == "quick" else 3
     out = []
     for name in ("moves", "retract", "frame", "other", "arcs", "rebase"):
-        kk = K + 1 if name == "retract" else K
+        kk = K + 1 if name in ("retract", "frame") else K
         out.append(Scenario(name, scen, params={"K": kk, "R": 1 if tier == "quick" else 2, "alphabet": name},
                             cover=["shape-" + s.tag for s in ALPHABET[name]],
                             bounds={"K": kk, "alphabet": [s.tag for s in ALPHABET[name]]},
                             excludable=[KF_G92]))
+    for name in ("moves", "retract", "frame", "other", "arcs"):
+        out.append(Scenario("ind-" + name, scen_ind, params={"alphabet": name},
+                            cover=["shape-" + s.tag for s in ALPHABET[name] if s is not pl.REPEAT
+                                   and not (s.code == "G92" and any(l in "XYZ" for l, _ in s.words))],
+                            bounds={"K": "1 step from an arbitrary invariant state (all history lengths)",
+                                    "alphabet": [s.tag for s in ALPHABET[name]]}))
     return out
 
 
 for _n in ALPHABET:
     SCENARIOS[_n] = scen
+    SCENARIOS["ind-" + _n] = scen_ind
